@@ -91,7 +91,8 @@ def St.adv (s : St) : St :=
   | [] => { s with bytep := s.bytep + 1 }
   | x :: r => { s with bytep := s.bytep + 1, pre := x :: s.pre, post := r }
 
-/-- `Hstartbitread`: element `e` exists; the first block is pre-read into the zeroed (`calloc`) buffer -/
+/-- `Hstartbitread`: element `e` exists; the first block is pre-read into the zeroed (`calloc`) buffer, which then ends
+    with the bytes read (`bytez = bytea + n`) -/
 def startRead (e : List Byte) : St :=
   let s0 : St := { elem := e, posn := 0, maxOff := e.length, byteOff := 0, wAccess := false, wMode := false,
                    bytez := BITBUF_SIZE, pre := [], post := List.replicate BITBUF_SIZE 0, bytep := 0 }
@@ -99,7 +100,7 @@ def startRead (e : List Byte) : St :=
     if s0.maxOff > s0.byteOff then
       match hRead s0 (min (s0.maxOff - s0.byteOff) BITBUF_SIZE) with
       | none => { s0 with err := true }
-      | some (d, s) => ({ (s.load d) with bufRead := d.length }).setPtr 0
+      | some (d, s) => { (({ (s.load d) with bufRead := d.length }).setPtr 0) with bytez := d.length }
     else { (s0.setPtr s0.bytez) with bufRead := 0 }
   { s1 with blockOff := 0, count := 0 }
 
@@ -165,10 +166,8 @@ def bitwriteCore (s : St) (count data0 : Nat) : St :=
 def bitflush (s : St) (flushbit : Option Bool) (writeout : Bool) : St :=
   let s :=
     if s.count < BITNUM then
-      if s.byteOff > s.maxOff then
-        match flushbit with
-        | none => s
-        | some fb => bitwriteCore s (min s.count DATANUM) (if fb then 0xFF else 0)
+      if s.byteOff ≥ s.maxOff ∧ flushbit.isSome then
+        bitwriteCore s (min s.count DATANUM) (if flushbit.getD false then 0xFF else 0)
       else
         let (x, s) := s.peek
         let m := (255 ^^^ ((maskC (BITNUM - s.count) <<< s.count) % 256))
@@ -179,7 +178,7 @@ def bitflush (s : St) (flushbit : Option Bool) (writeout : Bool) : St :=
         { s with count := BITNUM, bits := 0 }
     else s
   if writeout then
-    let writeSize := min s.bytez s.maxOff
+    let writeSize := min s.bytez (s.maxOff - s.blockOff)
     if writeSize > 0 then hWrite s (s.buf.take writeSize) else s
   else s
 
@@ -196,7 +195,8 @@ def bitseek (s : St) (byteOffset bitOffset : Nat) : St × Bool :=
         match hRead s (min (s.maxOff - seekPos) BITBUF_SIZE) with
         | none => none
         | some (d, s) =>
-          let s := { ((s.load d).setPtr 0) with bytez := d.length, bufRead := d.length, blockOff := seekPos }
+          let bz := if s.wMode then BITBUF_SIZE else d.length   -- reading: the bytes read; writing: the whole block
+          let s := { ((s.load d).setPtr 0) with bytez := bz, bufRead := d.length, blockOff := seekPos }
           some (if s.wMode then hSeek s seekPos else s)
       else some s
     match r with
@@ -216,10 +216,20 @@ def bitseek (s : St) (byteOffset bitOffset : Nat) : St × Bool :=
         if s.wMode then ({ s with count := BITNUM, bits := 0 }, true)
         else ({ s with count := 0 }, true)
 
-/-- `HIread2write`: `block_offset = (int32)LONG_MIN` (the generated constant: 0 on LP64), `mode = 'w'`, re-seek -/
-def read2write (s : St) : St :=
-  let s := { s with blockOff := LONG_MIN_AS_INT32, wMode := true }
-  (bitseek s s.byteOff (BITNUM - s.count)).1
+/-- `HIread2write`: the byte that takes the next bit is found from `bytep` (a partly read byte is stepped back onto),
+    `Hbitseek` positions there as a reader, then the read position is turned into a write position; `false` = FAIL -/
+def read2write (s : St) : St × Bool :=
+  let pos0 := s.blockOff + s.bytep
+  let (pos, bit) := if s.count > 0 then (pos0 - 1, BITNUM - s.count) else (pos0, 0)
+  let (s, ok) := bitseek s pos bit
+  if !ok then (s, false)
+  else
+    let s :=
+      if bit > 0 then
+        let s := s.setPtr (s.bytep - 1)
+        { s with bits := s.bits &&& ((maskC bit <<< s.count) % 256) }
+      else { s with count := BITNUM, bits := 0 }
+    (hSeek { s with bytez := BITBUF_SIZE, wMode := true } s.blockOff, true)
 
 /-- `HIwrite2read` -/
 def write2read (s : St) : St :=
@@ -235,9 +245,11 @@ def bitwrite (s : St) (count data : Nat) : St × Option Nat :=
   else if !s.wAccess then (s, none)
   else
     let c := min count DATANUM
-    let s := if !s.wMode then read2write s else s
-    let s := bitwriteCore s c (data % 2 ^ DATANUM)
-    if s.err then (s, none) else (s, some count)
+    let (s, ok) := if !s.wMode then read2write s else (s, true)
+    if !ok then (s, none)
+    else
+      let s := bitwriteCore s c (data % 2 ^ DATANUM)
+      if s.err then (s, none) else (s, some count)
 
 /-- the refill `if (bytep == bytez) { n = Hread(acc_id, BITBUF_SIZE, bytea); ... }` of `Hbitread`; `none` = EOF branch -/
 def refill (s : St) : Option St :=
@@ -245,7 +257,8 @@ def refill (s : St) : Option St :=
     match hRead s BITBUF_SIZE with
     | none => none
     | some (d, s') =>
-      some { ((s'.load d).setPtr 0) with blockOff := s'.blockOff + s'.bufRead, bytez := d.length, bufRead := d.length }
+      if d.length = 0 then none   -- `n <= 0`: `Hread` returns 0 bytes at the end of the element
+      else some { ((s'.load d).setPtr 0) with blockOff := s'.blockOff + s'.bufRead, bytez := d.length, bufRead := d.length }
   else some s
 
 /-- `l = *bytep++; byte_offset++; if (byte_offset > max_offset) max_offset = byte_offset` -/
